@@ -447,11 +447,40 @@ func (l *Linter) resolveSnippetInclusion(
 		return statements
 	}
 
+	if l.isCircularInclusion(include, include.Module.Value) {
+		return statements
+	}
+
 	// snippet could not have nested include statement
 	if isRoot {
 		return l.loadVCL(include.Module.Value, snip.Data)
 	}
 	return l.loadSnippetVCL(include.Module.Value, snip.Data)
+}
+
+// isCircularInclusion reports an error and returns true if the module is included from itself
+// or from the modules that it includes, otherwise records who includes the module.
+func (l *Linter) isCircularInclusion(include *ast.IncludeStatement, module string) bool {
+	parent := include.GetMeta().Token.File
+	if _, ok := l.includers[parent][module]; ok || parent == module {
+		e := &LintError{
+			Severity: ERROR,
+			Token:    include.GetMeta().Token,
+			Message:  fmt.Sprintf("Circular inclusion found for module %s", include.Module.Value),
+		}
+		l.Error(e.Match(INCLUDE_STATEMENT_MODULE_LOAD_FAILED))
+		return true
+	}
+
+	includers := map[string]struct{}{parent: {}}
+	for name := range l.includers[parent] {
+		includers[name] = struct{}{}
+	}
+	for name := range l.includers[module] {
+		includers[name] = struct{}{}
+	}
+	l.includers[module] = includers
+	return false
 }
 
 // Module (file) inclusion
@@ -473,25 +502,9 @@ func (l *Linter) resolveFileInclusion(
 		return statements
 	}
 
-	// Prevent circular inclusion, the module must not be included from itself or from modules that it includes
-	parent := include.GetMeta().Token.File
-	if _, ok := l.includers[parent][module.Name]; ok || parent == module.Name {
-		e := &LintError{
-			Severity: ERROR,
-			Token:    include.GetMeta().Token,
-			Message:  fmt.Sprintf("Circular inclusion found for module %s", include.Module.Value),
-		}
-		l.Error(e.Match(INCLUDE_STATEMENT_MODULE_LOAD_FAILED))
+	if l.isCircularInclusion(include, module.Name) {
 		return statements
 	}
-	includers := map[string]struct{}{parent: {}}
-	for name := range l.includers[parent] {
-		includers[name] = struct{}{}
-	}
-	for name := range l.includers[module.Name] {
-		includers[name] = struct{}{}
-	}
-	l.includers[module.Name] = includers
 
 	if isRoot {
 		statements = l.loadVCL(module.Name, module.Data)
